@@ -36,7 +36,7 @@ RULE = ("Hypothesis-generated sequences (<= 14 calls quick / 30 thorough) of cre
 ASSUMPTIONS = [
     "renaming a folder into its own subtree is not generated (no file system permits it; the mock would accept it)",
     "mock path-style + case-insensitive: only lower-case names are generated (open finding KF-22: objects whose path has upper-case letters are stored under two keys)",
-    "filesystem events arrive asynchronously (inotify): the stream is polled for up to 5 s; a miss re-runs the whole case once before it counts",
+    "filesystem events arrive asynchronously (inotify): the stream is polled for up to 5 s; a miss re-runs the whole case up to twice (10 s / 20 s poll, 30 ms pause between calls) before it counts",
 ]
 FLAVS = ("mock_id_cs", "mock_path_cs", "mock_id_ci", "mock_path_ci", "fs")
 NAMES = ("a", "b", "A", "x.y")
@@ -185,10 +185,14 @@ def make_provider(flav):
 EXC = {"nf": ex.CloudFileNotFoundError, "exists": ex.CloudFileExistsError, "name": ex.CloudFileNameError}
 
 
-def run(trace, _retry=True):
+_ATTEMPT = [0]     # filesystem only: 0 = first run; 1, 2 = re-runs after a missed event (longer poll, paced calls)
+
+
+def run(trace, _retry=2):
     flav = trace["cfg"]["flav"]
     shims.reset(0)
     prov, scratch = make_provider(flav)
+    _ATTEMPT[0] = 2 - _retry
     try:
         out = _run(trace, flav, prov)
     finally:
@@ -199,7 +203,10 @@ def run(trace, _retry=True):
         if scratch:
             shutil.rmtree(scratch, ignore_errors=True)
     if out["status"] == "violation" and out["clause"] == "events_reported" and flav == "fs" and _retry:
-        return run(trace, _retry=False)
+        # a watcher thread that did not get scheduled in time is not an omission by the provider: re-run the whole
+        # case (twice at most) with a longer poll and a short pause after every call; a real omission fails all three
+        return run(trace, _retry=_retry - 1)
+    _ATTEMPT[0] = 0
     return out
 
 
@@ -234,6 +241,8 @@ def _run(trace, flav, prov):
         return None
 
     for i, a in enumerate(trace["acts"]):
+        if flav == "fs" and _ATTEMPT[0]:
+            time.sleep(0.03)
         k = a[0]
         if k == "create":
             p, data = a[1], blob(a[2])
@@ -448,7 +457,7 @@ def _agree(i, a, prov, ref, id_style, norm_oid, flav):
 def _events(prov, muts, flav, final_live):
     want = [(oid, exists) for _k, oid, exists in muts]
     seen = []
-    deadline = time.time() + (5.0 if flav == "fs" else 0)
+    deadline = time.time() + ((5.0, 10.0, 20.0)[_ATTEMPT[0]] if flav == "fs" else 0)
 
     def satisfied(w):
         if w in seen:
